@@ -1053,6 +1053,14 @@ def preset_clash(prog, req):
     return any(a not in listed and idx[a].get("preset") in keys for a in used)
 
 
+def preset_output_clash(prog, req):
+    """Does an unlisted preset-named argument carry a requested output name or a key (whether used or not)?"""
+    idx = index(prog)
+    names = {n for n, _ in req["inputs"] + req["outputs"]}
+    listed = {i for _, i in req["inputs"]}
+    return any(n["k"] == "arg" and n.get("preset") in names and n["id"] not in listed for n in idx.values())
+
+
 def gen_preset_clash_request(rng: random.Random, prog):
     """The directed witness of the quirk: an output that needs a preset-named argument `z`, `z` not
     listed, its preset name given as the key of an argument the output does not need. None if the
